@@ -93,6 +93,7 @@ type sched struct {
 	clockH  uint64
 	clockVC vclock
 
+	keyIdent map[any]int
 	closed map[unsafe.Pointer]bool
 	objH   map[unsafe.Pointer]uint64
 	objVC  map[unsafe.Pointer]*objClock
